@@ -99,15 +99,19 @@ def itemOf? : List String → Option Item
 
 def cls (raw : Bool) : String := if raw then "W" else "P"
 
-/-- the harness's `all` loop -/
-def allLoop (raw : Bool) : Nat → Decoder → List String → Decoder × List String
-  | 0, d, acc => (d, acc ++ [s!"W err MODEL_OUT_OF_FUEL rem={d.src.length}"])
+/-- the harness's `all` loop (`acc` is built in reverse) -/
+def allLoopRev (raw : Bool) : Nat → Decoder → List String → Decoder × List String
+  | 0, d, acc => (d, s!"W err MODEL_OUT_OF_FUEL rem={d.src.length}" :: acc)
   | fuel + 1, d, acc =>
-    if d.err.isNone ∧ d.src.isEmpty ∧ d.cache.isNone then (d, acc ++ [s!"{cls raw} end rem=0"])
+    if d.err.isNone ∧ d.src.isEmpty ∧ d.cache.isNone then (d, s!"{cls raw} end rem=0" :: acc)
     else
       match popAny d with
-      | (d', .error e) => (d', acc ++ [s!"W err {errName e} rem={d'.src.length}"])
-      | (d', .ok it) => allLoop raw fuel d' (acc ++ [s!"{cls raw} item {showItem it} rem={d'.src.length}"])
+      | (d', .error e) => (d', s!"W err {errName e} rem={d'.src.length}" :: acc)
+      | (d', .ok it) => allLoopRev raw fuel d' (s!"{cls raw} item {showItem it} rem={d'.src.length}" :: acc)
+
+def allLoop (raw : Bool) (fuel : Nat) (d : Decoder) (acc : List String) : Decoder × List String :=
+  let (d', r) := allLoopRev raw fuel d acc.reverse
+  (d', r.reverse)
 
 def popKind (kind : String) (d : Decoder) : Option (Decoder × Except Err Item) :=
   match kind with
